@@ -51,8 +51,8 @@ def shards(tier, seed):
         out += T.shard_list(3, 3, 3, 'c10m', extra={'sub': 'mid', 'bounds': 'TREE(3,3,3) mid C10 alphabet x 6 formats'})
         out += T.shard_list(4, 4, 3, 'c10n', extra={'sub': 'narrow', 'bounds': 'TREE(4,4,3) narrow C10 alphabet x 6 formats'})
     else:
-        out += T.shard_list(3, 3, 3, 'c10', empty_nodes=True, pin=3, extra={'sub': 'wide', 'bounds': 'TREE(3,3,3) C10 alphabet, empty nodes x 6 formats'})
-        out += T.shard_list(3, 4, 3, 'c10m', pin=3, extra={'sub': 'mid', 'bounds': 'TREE(3,4,3) mid C10 alphabet x 6 formats'})
+        out += T.shard_list(3, 3, 3, 'c10', pin=3, extra={'sub': 'wide', 'bounds': 'TREE(3,3,3) C10 alphabet x 6 formats'})
+        out += T.shard_list(3, 3, 3, 'c10m', extra={'sub': 'mid', 'bounds': 'TREE(3,3,3) mid C10 alphabet x 6 formats'})
         out += T.shard_list(4, 5, 4, 'c10n', pin=3, extra={'sub': 'narrow', 'bounds': 'TREE(4,5,4) narrow C10 alphabet x 6 formats'})
     return out
 
